@@ -10,13 +10,13 @@
 (*     entry (hence: a write creating a dangling reference was refused, a   *)
 (*     delete removed the references to the deleted entries)                *)
 (* L2  transcription of plugins/refint.rs + server/delete.rs + recycle.rs:  *)
-(*     post-write existence check of NEWLY added targets (as implemented:   *)
-(*     one f_inc query under the hidden-entry mask, see NewOk),             *)
+(*     post-write existence check of NEWLY added targets (live only; new =  *)
+(*     not yet referenced by the entry through any attribute),              *)
 (*     delete = cascade over `refers` dependents, references to the deleted *)
 (*     set removed from every entry (recycled included), revive = restore   *)
 (*     `refers` from cascade_deleted then existence check; and the dynamic  *)
 (*     group re-evaluation as dyngroup.rs performs it (apply_dyngroup_change *)
-(*     searches with the raw filter: recycled entries are not masked)       *)
+(*     searches the filter among live entries)                               *)
 (***************************************************************************)
 EXTENDS Naturals, FiniteSets, TLC
 
@@ -30,12 +30,11 @@ NoDangling(s) == Dangling(s) = {}
 
 \* ----------------------------------- L2 -----------------------------------
 \* refint post_create / post_modify: the targets that are NEW in the operation (not in the previous values)
-\* are checked by check_uuids_exist_fast = ONE internal_exists over f_inc(uuid = v ...) wrapped in the
-\* ignore-hidden mask. f_inc needs every term to hit the uuid index (recycled and tombstoned entries are
-\* in it), then takes the UNION, then the mask removes the hidden ones - so the check passes as soon as
-\* no target is unknown and at least ONE of them is live. Only when it fails does the slow path look at
-\* the targets one by one (and then refuses).  s is the state AFTER the write was applied.
-NewOk(s, New) == New = {} \/ ((\A v \in New : LvOf(s, v) # "absent") /\ (\E v \in New : LvOf(s, v) = "live"))
+\* must all exist as LIVE entries: check_uuids_exist_fast counts the live matches of or(uuid = v ...) and
+\* compares with the number of targets (commit d4954e2; before, one f_inc query under the hidden-entry
+\* mask passed as soon as no target was unknown and at least one was live).  s is the state AFTER the
+\* write was applied.
+NewOk(s, New) == \A v \in New : LvOf(s, v) = "live"
 \* what the property asks for
 NewOkL1(s, New) == \A v \in New : LvOf(s, v) = "live"
 
@@ -80,8 +79,7 @@ Reap(s, P)   == [s EXCEPT !.lv = [x \in s.ids |-> IF x \in P /\ @[x] = "tombston
                           !.ref = [x \in s.ids |-> IF x \in P /\ s.lv[x] = "tombstone" THEN [a \in s.attrs |-> {}] ELSE @[x]]]
 
 \* dyngroup.rs apply_dyngroup_change for dynamic group d whose filter matches the set C of entries
-\* by attribute values alone: the internal search uses the raw filter, so recycled matches are kept
-\* (tombstones have lost the attributes the filter looks at).
+\* by attribute values: the search is restricted to live entries (commit 1d61d90).
 DynReeval(s, d, C) ==
-  [s EXCEPT !.ref[d]["dynmember"] = {c \in C : s.lv[c] \in {"live", "recycled"}}]
+  [s EXCEPT !.ref[d]["dynmember"] = {c \in C : s.lv[c] = "live"}]
 =============================================================================
